@@ -11,6 +11,7 @@ package pset
 
 import (
 	"bytes"
+	"errors"
 
 	"github.com/btcsuite/btcd/btcutil/psbt"
 	"github.com/btcsuite/btcd/txscript"
@@ -61,6 +62,15 @@ func Extract(p *Pset) (*transaction.Transaction, error) {
 			witCount, err := wire.ReadVarInt(witnessReader, 0)
 			if err != nil {
 				return nil, err
+			}
+
+			// Every item takes at least the byte of its length prefix:
+			// refuse a count the remaining bytes cannot hold before
+			// allocating for it.
+			if witCount > uint64(witnessReader.Len()) {
+				return nil, errors.New(
+					"final script witness declares more items than it holds",
+				)
 			}
 
 			// Now that we know how may inputs we'll need, we'll
